@@ -21,6 +21,28 @@ CHECKS = {
              "exit guarantee; override values range over str/int/bool.",
         technique="Lean 4 proof over a hand-written model + exhaustive differential correspondence (model driver vs real object)",
     ),
+    "C12": dict(
+        category="proof",
+        text="Lean theorems about the model of the metadata provider, its session and LineageRunner._eval as a program tree over "
+             "provider accesses, for ALL scripts (arbitrary per-statement analyses), fault placements (split, statement k, provider "
+             "lookup j, assembly) and histories: the session is deregistered on every exit path once entered, base metadata never "
+             "changes, a reused provider IS a fresh one after any run (so every run of any history has its fresh-provider outcome "
+             "and the provider answers get_table_columns as a fresh one), runs on different provider objects commute, any "
+             "interleaving of provider accesses is invisible to a thread with its own provider, and a falsy provider (the shared "
+             "default) is never looked up + differential correspondence of the model with the real DummyMetaDataProvider / "
+             "MetaDataSession / LineageRunner under harness-side taps (event log, session content, answers, exception class; "
+             "sequential histories with every fault point, and real threads under a deterministic provider-access scheduler) + "
+             "model-independent oracles (reused vs fresh provider, history in one process vs each run in a fresh process, shared "
+             "default provider, tsql split cache, 16-thread pools)",
+        design_ref="DESIGN.md §5 C12",
+        note=TB + ". PARTIAL: real thread interleavings inside sqlfluff/sqlparse are sampled (16-thread pools, several seeds), not "
+             "enumerated - the interleaving theorems and the deterministic scheduler work at the granularity of provider accesses; "
+             "per-statement analysis and final assembly are abstract in the model (arbitrary decision trees over gated lookups), "
+             "tied to the code for 8 statement templates only. Assumed: the `with` statement's exit guarantee; the configuration "
+             "object is the other module-level state (C15).",
+        technique="Lean 4 proof over a hand-written model + differential correspondence through taps (no repo edits) + "
+                  "fresh-process / fresh-provider / thread-pool oracles on the real code",
+    ),
 }
 
 NOT_YET = "machinery not built yet (build phase in progress, see DESIGN.md §9)"
